@@ -771,7 +771,7 @@ class PairContext:
 MECHS = ["free", "pendulum", "double_pendulum", "slider", "pm_fixed_distance", "rigid_pair", "synth"]
 ATTACH = ["none", "gravity", "spring_h", "spring_c", "kelvin_voigt_c", "maxwell", "motor", "pd", "pid"]
 CONTACTS = ["none", "rest_mu0", "stick_mu", "slide_mu", "open_mu", "two_spheres", "two_spheres_slide", "accel_plane", "spin_offcentre",
-            "ceiling_mu", "ceiling_mu0", "incline_stick"]
+            "ceiling_mu", "ceiling_mu0", "incline_stick", "open_then_stick"]
 INITS = ["rest", "spin"]
 INCONSISTENT = ["joint_velocity", "position_offset", "joint_offset", "penetration", "approaching", "s2s_penetration"]
 GRAV = 9.81
@@ -919,8 +919,15 @@ def build_c16(case):
         if con == "open_mu":
             z = rad + 0.4
             v = np.array([0.3, -0.2, 0.5])
-        if con == "stick_mu":
+        if con in ("stick_mu", "open_then_stick"):
             ft = np.array([0.12, -0.07, 0.0]) * mb * GRAV  # well inside the friction cone even for a rolling sphere
+        if con == "open_then_stick":
+            # an OPEN frictional contact of another ball, moving tangentially, is registered BEFORE the persistent one:
+            # the active-set numbering of the friction forces differs from the global numbering
+            ball0 = _rb(mb, [0.4 * mb * rad**2] * 3, [-1.0, 2.0, rad + 0.4], [1.0, 0, 0, 0], v=np.array([0.6, -0.9, 0.0]), name="ball0")
+            contr += [ball0, fo.Force(np.array([0.0, 0.0, -mb * GRAV]), ball0, name="ball0_load"),
+                      co.Sphere2Plane(O, ball0, mu=0.3, r=rad, e_N=0.0, e_F=0.0, name="ball0_plane")]
+            mus["ball0_plane"] = 0.3
         if con == "slide_mu":
             v = np.array([0.7, -0.4, 0.0])
         if bad == "penetration":
